@@ -13,3 +13,12 @@ claim("C09",
       "and traces recorded from real non-versor objects are validated by TraceHamilton (as-built deviation for the known "
       "inverse defect).",
       "TLA+ HamiltonAlgebra + TLC + exact replay and trace validation", "DESIGN.md section 5, C09")
+claim("C02",
+      "The seven matrix->quaternion methods are specified in Dcm2Quat.tla as sqrt-free case analyses over the exact matrix "
+      "(Shepperd's pivot with nondeterministic ties, closed-form magnitude/sign recovery, Sarabandi's arms, Hughes' identity "
+      "case, Bar-Itzhack as the eigenvalue-1 eigenvector of K2/K3) and bound into AttitudeMachine as ToQuat; TLC proves "
+      "MethodSound on every register of L(2), 2O, exact half-turns and thin families and emits the allowed signed outputs; "
+      "the harness feeds the exact matrices (plus bigint-mirror thin families down to 1e-15 rad and eps-perturbed relational "
+      "cases) to 9 method variants x 6 dispatchers and requires a real unit quaternion equal to an allowed output; ToQuat "
+      "behaviours are replayed and their recorded traces validated by TraceAttitude.",
+      "TLA+ Dcm2Quat/AttitudeMachine + TLC + exact replay, bigint mirror, trace validation", "DESIGN.md section 5, C02")
